@@ -256,6 +256,44 @@ def check_lockstep(rep: Report, ix, mem: ClassInfo, clf: Classifier) -> None:
     rep.floor("methods of MemoryStorage (incl. inherited) that mutate times/data", n_mut, 3)
 
 
+EXACT_COPY_FUNCS = {"np.array", "np.copy", "np.asarray", "np.asanyarray", "np.ascontiguousarray", "numpy.array", "numpy.copy"}
+
+
+def value_preserving(e: ast.AST, src: str):
+    """is the (expanded) expression an *exact* copy of parameter ``src``?  returns
+    ("exact" | "cast" | "unknown", detail).  A dtype argument is exact only when it is taken
+    from the copied array itself; any other dtype makes the stored values depend on state
+    that may stem from an earlier writing session."""
+
+    def from_src(x: ast.AST) -> bool:
+        return any(isinstance(n, ast.Name) and n.id == src for n in ast.walk(x))
+
+    if isinstance(e, ast.Name):
+        return ("exact", "") if e.id == src else ("unknown", f"name `{e.id}` is not the data parameter")
+    if isinstance(e, ast.Call):
+        fn = chain_str(e.func) or ""
+        if fn in EXACT_COPY_FUNCS and e.args:
+            dts = [k.value for k in e.keywords if k.arg == "dtype"] + (list(e.args[1:2]) if fn.endswith(".array") or fn.endswith("asarray") or fn.endswith("asanyarray") or fn.endswith("ascontiguousarray") else [])
+            for d in dts:
+                if isinstance(d, ast.Constant) and d.value is None:
+                    continue
+                if not from_src(d):
+                    return "cast", f"`{ast.unparse(e)}` converts the frame to dtype `{ast.unparse(d)}`, which is not taken from the frame itself"
+            bad = [k.arg for k in e.keywords if k.arg not in ("dtype", "copy", "order", "subok", "ndmin", "like")]
+            if bad:
+                return "unknown", f"keyword(s) {bad} of `{ast.unparse(e)}`"
+            return value_preserving(e.args[0], src)
+        if isinstance(e.func, ast.Attribute) and e.func.attr == "copy":
+            return value_preserving(e.func.value, src)
+        if isinstance(e.func, ast.Attribute) and e.func.attr == "astype":
+            d = e.args[0] if e.args else next((k.value for k in e.keywords if k.arg == "dtype"), None)
+            if d is not None and from_src(d):
+                return value_preserving(e.func.value, src)
+            return "cast", f"`{ast.unparse(e)}` converts the frame to dtype `{ast.unparse(d) if d is not None else '?'}`, which is not taken from the frame itself"
+        return "unknown", f"call `{ast.unparse(e)[:80]}` is not a known exact-copy idiom"
+    return "unknown", f"`{ast.unparse(e)[:80]}` is not a known exact-copy idiom"
+
+
 def check_append(rep: Report, ix, clf: Classifier) -> None:
     f = ix.func(MEM, "MemoryStorage._append_data")
     rep.saw("functions", f.ref)
@@ -301,6 +339,18 @@ def check_append(rep: Report, ix, clf: Classifier) -> None:
         if not mentions(e_time, p, wt.idx, p_time):
             rep.violation("C20.append-copies", f"{f.ref}::stored-time", f"the appended time stamp does not derive from parameter `{p_time}`", line=wt.node.lineno)
         rep.oblige("append:fresh-copy", v.fresh and derived, v.show())
+        # the copy must be exact: equal to the field's data at the moment of appending
+        verdict, why = value_preserving(expand(e_data, p, wd.idx), p_data)
+        if verdict == "unknown" and v.fresh and derived:
+            raise AnalysisError(f"{f.ref}: cannot decide whether the stored frame `{ast.unparse(e_data)}` is an exact copy of `{p_data}`: {why}")
+        rep.oblige("append:exact-copy (no cast by a dtype that is not the frame's own)", verdict != "cast", why or ast.unparse(e_data))
+        if verdict == "cast":
+            rep.violation(
+                "C20.append-exact",
+                f"{f.ref}::stored-frame-dtype",
+                f"{why}: the stored frame need not equal the field's data at the moment of appending (a dtype remembered from an earlier session or from the template casts later frames: bool/int truncation, dropped imaginary parts)",
+                line=wd.node.lineno,
+            )
     rep.floor("normally returning paths of _append_data", n_norm, 1)
 
     # StorageBase.append forwards (field.data, time)
